@@ -20,6 +20,7 @@ ASSUMPTIONS = ["vf/ref/tx_ref.py legacy/witness serialisation defines txid/wtxid
 OBLIGATIONS = {
     "concurrent_calls": "interleavings of two concurrent calls (single-case checks in two threads, cold and after warm-up calls)",
     "huge_tx": "a transaction of more than 1 000 000 / 4 000 000 bytes parsed alone and inside a block",
+    "long_history": "operations executed in one long history (>= 1000 distinct operations, forward / forward / reverse)",
     "history_sequences": "operation sequences (non-initial process states) explored",
     "segwit_nonfinal_sequence": "a segwit transaction with a sequence other than ffffffff",
     "trailing_byte_inside_tx": "a trailing byte that also occurs inside the transaction",
@@ -188,7 +189,7 @@ def jobs(tier, seed):
     nsh = 16 if tier == "quick" else 48
     from vf.runner import seq_jobs
     return [{"name": f"ids/{sh}", "part": "ids", "shard": [sh, nsh], "weight": 5} for sh in range(nsh)] + \
-        [{"name": "block", "part": "block", "weight": 2}, {"name": "huge", "part": "huge", "weight": 8}] + seq_jobs(3, weight=3) + __import__("vf.runner", fromlist=["x"]).concur_jobs(len(CONCUR_SCEN) - (1 if tier == "quick" else 0))
+        [{"name": "block", "part": "block", "weight": 2}, {"name": "huge", "part": "huge", "weight": 8}] + seq_jobs(3, weight=3) + __import__("vf.runner", fromlist=["x"]).long_jobs() + __import__("vf.runner", fromlist=["x"]).concur_jobs(len(CONCUR_SCEN) - (1 if tier == "quick" else 0))
 
 
 def run_job(job):
@@ -197,6 +198,9 @@ def run_job(job):
         ops = seq_ops(dict(job, shard=[0, 1]))
         scens = [{"threads": [ops[i] for i in sc[0]], "warm": [ops[i] for i in sc[1]], "post": [ops[i] for i in (sc[2] if len(sc) > 2 else ())]} for sc in CONCUR_SCEN]
         return run_concur_job(job, scens, run_case, PROPERTY, CONCUR_FILES)
+    if job["part"] == "longhist":
+        from vf.runner import run_long_job, default_long_ops
+        return run_long_job(job, default_long_ops(seq_ops, job), run_case)
     if job["part"] == "seq":
         from vf.runner import run_seq_job
         return run_seq_job(job, seq_ops(job), run_case, depth=3 if job["tier"] == "quick" else 4)
